@@ -173,6 +173,94 @@ def body(chk, db, cfgname):
                                     short(side), short(side)), cfgname)
                             elif x[1] == side and x[0] == "<=":
                                 r3.ok(site, tsite.fn.loc(tsite.node), "rejects every label >= %s" % short(side), cfgname)
+    # ------------------------------------------------------------------ R4
+    # What a destructor frees must be owned by that object alone.  For every class whose destructor deletes storage reached
+    # through a member, the ways of copying the object are examined: a user-provided copy constructor (copying is a supported
+    # operation) must not hand the same pointers to the copy; a compiler-generated one does, which is a double free as soon as
+    # the class is copied anywhere in the analysed code.
+    r4 = chk.rule("C17-R4", "storage freed by a destructor is not shared with a copy of the object (no double free / use after free through the copy constructor)", "F3 ownership", 4)
+    from pv.loops import enclosing_loops, loop_shape
+    for qn, rec in sorted(db.records.items()):
+        if not qn.startswith("Pomerol::") and not qn.startswith("pMPI::"):
+            continue
+        dt = [x for x in db.fns.values() if x.rec == qn and x.qn.split("::")[-1].startswith("~") and x.body is not None and x.body >= 0]
+        if not dt:
+            continue
+        d = dt[0]
+        dctx = Ctx(d, db)
+        freed = {}
+        for j, n in d.walk(d.body):
+            if n["k"] != "delete":
+                continue
+            keys = [dctx.key(n["sub"])]
+            for L_ in enclosing_loops(d, j):
+                shp = loop_shape(d, dctx, L_)
+                keys += [shp.get(x) for x in ("start", "bound") if isinstance(shp.get(x), tuple)]
+            fl = set()
+            for k_ in keys:
+                key_contains(k_, lambda y: fl.add(y[1]) if (y[0] == "field" and len(y) == 3 and y[2] == ("this",)) else False)
+            if not fl:
+                raise AnalysisBroken("%s: the operand of `delete` is not reached through a member" % d.qn)
+            for x in fl:
+                freed.setdefault(x, j)
+        if not freed:
+            continue
+        cc = [m for m in rec.get("methods", []) if m.get("copyctor")]
+        for fq, j in sorted(freed.items()):
+            site = "%s:%s" % (qn, fq.split("::")[-1])
+            short_f = fq.split("::")[-1]
+            user = [x for x in db.fns.values() if x.rec == qn and x.qn == qn + "::" + qn.split("::")[-1] and len(x.params) == 1
+                    and strip_targs(x.params[0].get("t") or "").replace("const ", "").replace("&", "").strip().split("::")[-1] == qn.split("::")[-1]
+                    and x.body is not None and x.body >= 0]
+            if user:
+                c = user[0]
+                cctx = Ctx(c, db)
+                src = ("param", c.params[0]["d"], c.params[0]["n"])
+                shallow = None
+                ini = [i_ for i_ in c.d.get("inits", []) if i_.get("fq") == fq and i_.get("written")]
+                for i_ in ini:
+                    if key_contains(cctx.key(i_["e"]), lambda y: y[0] == "field" and y[1] == fq and y[2] == src):
+                        k_ = cctx.key(i_["e"])
+                        # `new T(*other.p)` copies what is pointed to; taking other.p itself (or the container of pointers) shares it
+                        if not key_contains(k_, lambda y: y[0] == "new"):
+                            shallow = c.loc(i_["e"])
+                for jj, nn in c.walk(c.body):
+                    if nn["k"] == "bin" and nn["op"] == "=" or (nn["k"] == "call" and nn.get("ck") == "op" and nn.get("op") == "=" and len(nn.get("args", [])) == 2):
+                        l_, r_ = (nn["l"], nn["r"]) if nn["k"] == "bin" else nn["args"]
+                        if cctx.key(l_) == ("field", fq, ("this",)) and cctx.key(r_) in (("field", fq, src),):
+                            shallow = c.loc(jj)
+                    # element-wise filling of the member:  member.push_back(x) / insert(x) inside a loop over the source's member
+                    if nn["k"] == "call" and nn.get("ck") == "method" and nn.get("obj") is not None and cctx.key(nn["obj"]) == ("field", fq, ("this",)) \
+                            and strip_targs(nn.get("cname") or "").split("::")[-1] in ("push_back", "push_front", "insert", "emplace_back", "emplace"):
+                        over_src = False
+                        for L_ in enclosing_loops(c, jj):
+                            shp = loop_shape(c, cctx, L_)
+                            if any(isinstance(shp.get(x), tuple) and key_contains(shp[x], lambda y: y == ("field", fq, src)) for x in ("start", "bound")):
+                                over_src = True
+                        for a_ in nn["args"]:
+                            ak = cctx.key(a_)
+                            if key_contains(ak, lambda y: y[0] == "new"):
+                                continue
+                            if over_src or key_contains(ak, lambda y: y == ("field", fq, src)):
+                                shallow = c.loc(jj)
+                if shallow:
+                    r4.bad(site, shallow, "the copy constructor gives the copy the same %s as the original, and ~%s deletes what it holds (line %s): the second destructor frees the storage again, and the survivor uses freed objects" % (
+                        short_f, qn.split("::")[-1], d.loc(j).rsplit(":", 1)[-1]), cfgname)
+                else:
+                    r4.ok(site, c.loc(), "the copy constructor does not take over the original's %s (freed in %s)" % (short_f, d.loc(j)), cfgname)
+            elif cc and all(m.get("implicit") for m in cc):
+                # compiler-generated member-wise copy: shares the pointers.  Is the class copied anywhere?
+                copies = []
+                for g in fns:
+                    for jj, nn in g.walk(g.body):
+                        if nn["k"] == "construct" and nn.get("copy") and strip_targs(nn.get("crec") or "") == qn:
+                            copies.append(g.loc(jj))
+                if copies:
+                    r4.bad(site, copies[0], "%s is copied here with the compiler-generated copy constructor, which shares %s; ~%s deletes it in both objects" % (qn, short_f, qn.split("::")[-1]), cfgname)
+                else:
+                    r4.ok(site, d.loc(j), "member-wise copyable but never copied in the library (objects of this class are held by reference); %s freed once" % short_f, cfgname)
+            else:
+                r4.ok(site, d.loc(j), "not copy-constructible", cfgname)
     chk.undecided.append("arithmetic overflow (1<<IndexSize), use before prepare/compute, lifetime of leaked raw pointers; UB classes outside the anchored mechanisms")
     chk.note("assumed (not checked): FieldOperator::getPartFrom*Index look-ups rely on the bimap invariant established by prepare (C07-R5)")
 
